@@ -222,3 +222,18 @@ Proof. cbv zeta. split; [repeat constructor; cbn; lia | repeat split; vm_compute
 (* offsets / lengths outside the text are clamped to it (the harness clamps in the same way before it forms the pointer) *)
 Example c17_self_clamped : self_state 1 0 [97;98] [XSelf (-1) 1099511627776; XSelf 5 2; XSelfC 2; XSelf 1 (-3)] = ([97;98;97;98;97;98], 0, 64, 0, 0).
 Proof. vm_compute. reflexivity. Qed.
+
+(* append(double) (op 10 of the case format): the model has no floating point, the case carries the "%g" text of the value
+   and the operation IS the formatted piece with an empty literal prefix - so every theorem above covers it (decode1 yields an
+   OFormat / OBytes, which satisfy ok_op).  "-1.23457e+100" (13 characters, the longest "%g" text): decoded as a formatted
+   piece; kept whole inline and by arrays of >= 14 cells, cut with ERANGE by a fixed array of 13 cells, spilled by a dynamic one *)
+Definition g13 : list Z := [45;49;46;50;51;52;53;55;101;43;49;48;48].
+Example c17_double_decodes :
+  decode1 ([10; 0; -3119143121221894680; 13] ++ g13 ++ [8]) = Some (OFormat [] (Some g13), [8]) /\
+  decode1 ([10; 2; -3119143121221894680; 13] ++ g13 ++ [8]) = Some (OBytes g13, [8]).
+Proof. split; vm_compute; reflexivity. Qed.
+Example c17_double_13_chars :
+  map (fun kc => let s := reach (fst kc) (snd kc) [] [OFormat [] (Some g13)] in (c_text s, b2z (erange s), b2z (fault s)))
+      [(0, 0); (2, 14); (2, 13); (3, 13)] =
+  [(g13, 0, 0); (g13, 0, 0); (firstn 12 g13, 1, 0); (g13, 0, 0)].
+Proof. vm_compute. reflexivity. Qed.
